@@ -348,6 +348,12 @@ package actor
 // parent; failures(c) counts its calls. The behaviour is user code: it may return or panic (maypanic), it does
 // not change the core's state word, envelope or reference.
 //@ ghost failures(ptr)
+// Failed (the API an actor reports a failure with) ABORTS the handler: it panics with the fault and never returns, so
+// nothing after it in the failing handler runs ("the failing message dropped, state intact"), the report goes through
+// the one recover block (one consultation per failure, suppressed while stopping)
+//@ func (*Context).Failed
+//@   panics true
+//@   noreturn
 // failed(): the failing actor pauses its OWN mailbox (until the decision arrives) and reports the failure to its
 // parent exactly once, as a system message carrying a new supervision context; nobody else is told anything.
 // (failures(c)++ is the ghost statement at its entry.)
